@@ -191,7 +191,10 @@ def gen_reloc_descr(rng, m, subs, npts):
     """how the mapper is built through the mesh API: with a BorderRelocator (sub-size handed over as an int or as the
     over-sampler's own Array2D), optionally with a preloaded relocated grid, optionally on a mesh object that has already
     served another source plane"""
-    rl = {"relocator": rng.random() < 0.9, "sub_int": rng.random() < 0.5, "warm": rng.random() < 0.5, "preload": None}
+    rl = {"relocator": rng.random() < 0.9, "sub_int": rng.random() < 0.5, "warm": rng.random() < 0.5, "preload": None,
+          # the remaining optional arguments at non-default values: the relocator handed to aa.Mapper as well, an image-plane
+          # mesh grid (run_time_dict stays None: the profiling branch needs a workspace config the repo's default lacks)
+          "opt": rng.random() < 0.4}
     if rng.random() < 0.25:
         # (a preloaded grid is used as it is: modest outliers, so that the default 1e-8 buffer of the rectangular overlay stays
         # above the decision margin of 1e-9 cell widths)
@@ -436,7 +439,7 @@ def gen_inputs(tier, rng):
         g = gen_hist(rng, "del" if i % 3 else "rect")
         if g is not None: yield g
     # (h) mappers built through the MESH API with a BorderRelocator and outliers (and preloads.relocated_grid)
-    for i in range(150 if big else 14):
+    for i in range(100 if big else 14):
         for f in (lambda: gen_rect(rng, "public", maxn, reloc=True, cap=24 if not big else 40),
                   lambda: gen_del(rng, maxn, reloc=True, cap=24 if not big else 40, kmax=8 if not big else 10)):
             g = next((x for x in (f() for _ in range(20)) if x is not None), None)
@@ -598,6 +601,8 @@ def make_mapper(aa, inp, mask=None, osr=None, adapt=None, reg=None, mesh=None):
         if rl.get("preload"):
             pre_obj = aa.Grid2DIrregular(values=np.array([[float(F(a)), float(F(b))] for a, b in rl["preload"]]))
             kw["preloads"] = aa.Preloads(relocated_grid=pre_obj)
+        if rl.get("opt"):
+            if inp["op"] == "del": kw["image_plane_mesh_grid"] = aa.Grid2DIrregular(values=[[0.25 * j, -0.5 * j] for j in range(len(inp["points"]))])
         d["defaults"] = default_preloads(aa); d["defaults_fp"] = fingerprint(d["defaults"])
         # a mesh object that has already served ANOTHER source plane (same mask, same relocator)
         decoy = aa.Grid2DIrregular(values=0.5 * np.array(src)[::-1] + 0.25) if rl.get("warm") else None
@@ -627,7 +632,10 @@ def make_mapper(aa, inp, mask=None, osr=None, adapt=None, reg=None, mesh=None):
             mg = aa.MapperGrids(mask=mask, source_plane_data_grid=src, source_plane_mesh_grid=mesh, adapt_data=adapt)
         d.update(V=V, mesh_in=vin)
     d["mg"] = mg
-    d["mapper"] = aa.Mapper(mapper_grids=mg, over_sampler=osr, regularization=reg)
+    if rl and rl.get("opt"):
+        d["mapper"] = aa.Mapper(mapper_grids=mg, over_sampler=osr, regularization=reg, border_relocator=relocator)
+    else:
+        d["mapper"] = aa.Mapper(mapper_grids=mg, over_sampler=osr, regularization=reg)
     d["adapt"] = adapt
     d["held"] = [src, d["mesh_in"], adapt, osr.sub_size, mask, pre_obj]
     d["snap"] = snapshot(*d["held"])
@@ -705,8 +713,14 @@ def do_aux(aa, d, name):
              "ConstantSplit": lambda: aa.reg.ConstantSplit(coefficient=1.0),
              "AdaptiveBrightnessSplit": lambda: aa.reg.AdaptiveBrightnessSplit(1.0, 0.5, 1.0),
              "GaussianKernel": lambda: aa.reg.GaussianKernel(coefficient=1.0, scale=1.0)}[cls]()
-        scribble(R.regularization_weights_from(linear_obj=mp))
-        scribble(R.regularization_matrix_from(linear_obj=mp))
+        try:
+            scribble(R.regularization_weights_from(linear_obj=mp))
+            scribble(R.regularization_matrix_from(linear_obj=mp))
+        except aa.exc.MeshException:
+            # the Split schemes build a scipy Voronoi diagram of the vertices: it can fail on RELOCATED (non-lattice, nearly
+            # cocircular) vertices; a perturber that does not apply, not C06's subject
+            if "Split" not in cls or not d.get("reloc"): raise
+            TALLY["aux_split_regularization_not_applicable"] = TALLY.get("aux_split_regularization_not_applicable", 0) + 1
 
 def do_step(aa, d, op):
     mp = d["mapper"]; k = op[0]
